@@ -269,7 +269,7 @@ def dea_table(ctx, ex):
     """All guards off: Dea values are entries of the exact epsilon table (through shifts)."""
     rep = ctx.rep
     where = where_cls(ex, 'Dea', '_dea')
-    for limexp, nterms in ((3, 7), (5, 6)) if ctx.tier == 'quick' else ((3, 9), (5, 8), (7, 8)):
+    for limexp, nterms in ((3, 7), (5, 6)) if ctx.tier == 'quick' else ((3, 9), (5, 7)):
         for prefer_new in ((True, False) if limexp == 3 else (True,)):
             def oracle(interp, node, fr, value, prefer_new=prefer_new):
                 return guards_off(ast.unparse(node), prefer_new)
@@ -280,7 +280,7 @@ def dea_table(ctx, ex):
             problems = []
             from ..engine import budget
             try:
-              with budget(20, 'Dea table limexp=%d' % limexp):
+              with budget(60, 'Dea table limexp=%d' % limexp):
                 for n in range(nterms):
                     val, err = obj(s[n])
                     if n < 2:
